@@ -506,7 +506,10 @@ def run(ctx):
     from .C02 import rule_anchor
     from .C02 import fill_evaluated, trip_evaluated, helpers_evaluated, rule_table, rule_year2, rule_doy_subsec, rule_endfill
     helpers_evaluated(ctx, "C16.helpers")
-    trip_evaluated(ctx, "C16.trip", (rule_table, (ctx,), ("C02.table",)), (rule_year2, (ctx,), ("C02.year2",)), (rule_doy_subsec, (ctx,), ("C02.doy", "C02.subsec")))
+    if not trip_evaluated(ctx, "C16.trip", (rule_table, (ctx,), ("C02.table",)), (rule_year2, (ctx,), ("C02.year2",)), (rule_doy_subsec, (ctx,), ("C02.doy", "C02.subsec"))):
+        # the round trip could not be evaluated on this (restructured) tree: the structural rule about the completion of end times looks at
+        # _retrieve_time_coverage instead, so that the function is examined either way
+        ctx.attempt(rule_endfill, ctx)
     fill_evaluated(ctx, "C16.fill", (rule_anchor, (ctx, "C01.anchor"), ("C01.anchor",)))
     tree_rules(ctx, which=("pred", "partition", "descent_q", "scan_q", "early_q", "rows", "empty", "extent", "member"))
     # the caller's arguments (arrays, filter / fill dictionaries) are not modified: an in-place update makes the next call on the same objects wrong
